@@ -59,6 +59,9 @@ func (blockchain *Blockchain) checkStop() bool {
 
 func (blockchain *Blockchain) stop() {
 	blockchain.stopped = true
+	if verifStop(blockchain) {
+		return
+	}
 	if blockchain.tmNode == nil {
 		blockchain.Close()
 		os.Exit(1)
